@@ -301,6 +301,9 @@ func (g *genState) steps(n, depth int, exclHeavy bool) []Step {
 			out = append(out, Step{Op: "gap", Max: -1, Ms: 1 + rng.Intn(200)})
 		case r < 15 && depth < 2:
 			out = append(out, Step{Op: "clone", Max: -1, Steps: g.steps(1+rng.Intn(4), depth+1, exclHeavy)})
+		case r < 18 && i > 0:
+			// the back-offer is given a new context of its own (not derived from the old one), after it has been used
+			out = append(out, Step{Op: "setctx", Max: -1})
 		case r < 21:
 			out = append(out, Step{Op: "reset", Max: -1})
 		case r < 27:
@@ -341,6 +344,8 @@ func cancelHandles(sc *Scenario) []string {
 	walk = func(label string, steps []Step) {
 		for i, s := range steps {
 			switch s.Op {
+			case "setctx":
+				out = append(out, fmt.Sprintf("%s/%dx", label, i))
 			case "clone":
 				walk(fmt.Sprintf("%s/%dc", label, i), s.Steps)
 			case "group":
@@ -383,8 +388,22 @@ func estimate(sc *Scenario) (int64, map[string][2]int64) {
 	fresh := func(a acct) acct { return acct{att: map[string]int{}, slept: a.slept, budget: a.budget} }
 	var walk func(a acct, steps []Step, label string, t int64) (int64, acct)
 	walk = func(a acct, steps []Step, label string, t int64) (int64, acct) {
+		var ctxSince []struct {
+			l string
+			t int64
+		}
+		defer func() {
+			for _, c := range ctxSince {
+				live[c.l] = [2]int64{c.t, t}
+			}
+		}()
 		for i, s := range steps {
 			switch s.Op {
+			case "setctx":
+				ctxSince = append(ctxSince, struct {
+					l string
+					t int64
+				}{fmt.Sprintf("%s/%dx", label, i), t})
 			case "gap":
 				t += int64(s.Ms)
 			case "reset":
